@@ -13,7 +13,9 @@
 (*   a, b           function parameters (values of the environment)        *)
 (*   G              a global that the environment declares or not          *)
 (*   objects        Obj(1) plain {}, Obj(2) valueOf -> 0, Obj(3) valueOf   *)
-(*                  -> "a"; a valueOf call is a trace event                *)
+(*                  -> "a"; a valueOf call is a trace event; Obj(4) has    *)
+(*                  an own toString -> "b" (a trace event) and the         *)
+(*                  inherited valueOf                                      *)
 (*                                                                         *)
 (* Transcribed from ECMA-262 (13.x expression evaluation, 14.x statement   *)
 (* completion records, 7.1.1 ToPrimitive, 7.3.x property access), not from *)
